@@ -424,7 +424,8 @@ def gen_c18(rng: random.Random) -> dict:
         events.append({"at": trig, "do": "fault", "kind": "mdns", "records": recs, "phase": pick(rng, ["pre", "post"])})
     # control script
     rl_zc = pick(rng, [None, None, "zeroconf", "async"]) if client["zeroconf"] is None else None
-    steps: list[dict] = [{"do": "rl.new", "name": None if use_mdns_addr else name, "zeroconf": rl_zc, "cb_delay": pick(rng, [{}, {}, {"error": 0.3}, {"disconnect": 0.7, "connect": 0.2}, {"error": 1.0, "disconnect": 0.1}, {"connect": 0.5}, {"connect": 2.0, "error": 0.1}])}, {"do": "rl.start"}]
+    late_name = (not use_mdns_addr) and rng.random() < 0.2
+    steps: list[dict] = [{"do": "rl.new", "name": None if (use_mdns_addr or late_name) else name, **({"name_after": name} if late_name else {}), "zeroconf": rl_zc, "cb_delay": pick(rng, [{}, {}, {"error": 0.3}, {"disconnect": 0.7, "connect": 0.2}, {"error": 1.0, "disconnect": 0.1}, {"connect": 0.5}, {"connect": 2.0, "error": 0.1}])}, {"do": "rl.start"}]
     ends_started = True
     tt = 0.0
     for _ in range(rng.randint(0, 3)):
